@@ -1,8 +1,12 @@
-"""Merges the per-shard results of tools/sweep_par.sh into seeded/RESULTS.json."""
+"""Merges the per-shard results of tools/sweep_par.sh into seeded/RESULTS.json (or OUT; with ONLY set, into the existing file)."""
 import json
 import sys
 
+import os
+target = os.environ.get('OUT', 'seeded/RESULTS.json')
 out = {}
+if os.environ.get('ONLY') and os.path.exists(target):
+  out = json.load(open(target))       # a partial sweep updates the entries it re-ran
 for k in range(int(sys.argv[1])):
   out.update(json.load(open(f'/tmp/wt/sweep_part{k}.json')))
 
@@ -12,6 +16,6 @@ def order(kv):
   return pid, int(m)
 
 
-json.dump(dict(sorted(out.items(), key=order)), open('seeded/RESULTS.json', 'w'), indent=1)
+json.dump(dict(sorted(out.items(), key=order)), open(target, 'w'), indent=1)
 bad = [k for k, v in out.items() if not v.get('detected')]
 print(len(out), 'seeded changes;', len(out) - len(bad), 'detected; not detected:', bad)
